@@ -75,6 +75,10 @@ def fails(v, lang):
     return v in FAILS or lang in FAILS_FOR.get(v, ())
 
 
+# v12 = v3 under a configuration that changes nothing but Swift's helper file (MC_Writer!MCVersions)
+SOURCES["v12"] = dict(SOURCES["v3"], **{"typeshare.toml": '[swift]\ncodablevoid_constraints = ["Hashable", "Equatable"]\n'})
+
+
 # (in single-file mode v8 would put two same-named definitions into one file: the arrival-order finding listed under C06)
 MULTI_ONLY = {"v8"}
 
@@ -171,6 +175,15 @@ def run(chk):
                     events.append({"ev": "touch", "files": {p: {"sha": s_, "mtime": str(m_)} for p, (s_, m_) in cli.snapshot(out).items()}})
                     meta.append(None)
                     continue
+                if v == "remove":
+                    # Writer!Remove: the helper file (Swift's Codable.swift; for the other backends the first file of the location) disappears
+                    present = sorted(cli.snapshot(out)) if os.path.isdir(out) else []
+                    victim = ([p for p in present if p.endswith("Codable.swift")] or present[:1])
+                    if victim:
+                        os.remove(os.path.join(out, victim[0]))
+                    events.append({"ev": "remove", "files": {p: {"sha": s_, "mtime": str(m_)} for p, (s_, m_) in cli.snapshot(out).items()}})
+                    meta.append(None)
+                    continue
                 set_sources(src, v)
                 time.sleep(0.003)
                 try:
@@ -202,7 +215,7 @@ def run(chk):
         refs = {e["v"]: e["files"] for e in events if e["ev"] == "ref"}
         for b in tres.bad:
             e, m = events[b - 1], meta[b - 1]
-            prev = events[b - 2] if events[b - 2]["ev"] in ("run", "touch") else None
+            prev = events[b - 2] if events[b - 2]["ev"] in ("run", "touch", "remove") else None
             kinds = []
             if e.get("failed"):
                 before = prev["files"] if prev else {}
